@@ -148,12 +148,11 @@ theorem C08_reader_prefix_stable (bs : Bytes) (n : Nat) (c : Core)
   readCoreBytes_prefix (List.take_prefix n bs) c h
 
 /- Full statement of C08_prefix_safe:
-     ∀ t (wf : t well-formed: ndim ≥ 1, matching lengths, values in range, extra cards not named END/ORDERn/NAXISn/…) n,
+     ∀ t (wf : t well-formed: ndim ≥ 1, matching lengths, values in range, extra cards not named END/ORDER/EXTNAME) n,
        readBytes ((encode t).take n) = none ∨ ∃ v, readBytes ((encode t).take n) = some v ∧ v.core = t.core
-   Proved below with the round trip `readCoreBytes (encode t) = some t.core` as a hypothesis instead of deriving it
-   from well-formedness (missing: the card-level round-trip lemmas — decimal formatting of values and of the index in
-   ORDERn/NAXISn/KNOTSn names, and `cardsOf ∘ flatten`).  The hypothesis is evaluated by the driver for every table the
-   check generates (`rt=1`, a test) and proved for the instance `tinyTable` below. -/
+   It is proved in Part 3 below (`C08_prefix_safe`, with `C08_roundtrip` for every table satisfying `Table.wf`).  The
+   version with the round trip `readCoreBytes (encode t) = some t.core` as a hypothesis is kept: it is the step from
+   the round trip to prefix safety, and `C08_prefix_safe` is its corollary. -/
 /-- C08 (crash safety of the file format as written): every byte prefix of the file of a table that round-trips is
     either rejected or loads with orders, axes, coefficients and knots equal to the table's. -/
 theorem C08_prefix_safe_partial (t : Table) (n : Nat) (hrt : readCoreBytes (encode t) = some t.core) :
@@ -265,11 +264,21 @@ theorem C08_write_fault_is_reported (sh : Shape) (w : World) (hs : Surfaces w (w
 def exampleWorld : World :=
   ⟨fun i => i != 8,
    fun j => if j = 8 then [⟨.pwrite 0 [1, 2, 3], true, 0⟩, ⟨.pwrite 3 (List.replicate 20 9), false, 7⟩, ⟨.close, true, 0⟩] else [],
-   false⟩
+   false, false⟩
 
 example : (∃ o ∈ exampleWorld.io 8, o.bad = true) ∧ 8 < (writeFits ⟨1, false, 0, false⟩ exampleWorld.env).trace.length ∧
     (writeFits ⟨1, false, 0, false⟩ exampleWorld.env).outcome = .failure ∧
     diskAfter (coreSteps ⟨1, false, 0, false⟩) exampleWorld (some [42]) = none := by decide
+
+/-- the contract holds in that world (the short write happens inside the close, which reports it) -/
+example : Surfaces exampleWorld (writeFits ⟨1, false, 0, false⟩ exampleWorld.env).trace := by
+  intro j _ ⟨o, ho, _⟩
+  have hj8 : j = 8 := by
+    by_cases h : j = 8
+    · exact h
+    · simp [exampleWorld, h] at ho
+  subst hj8
+  exact ⟨8, Nat.le_refl _, .clos, by decide⟩
 
 /-- C08 (what a failed write leaves, all operation logs): when `write_fits` reports a failure, no file of that name is
     left behind, or — only when creating the file failed — the file which was there before is untouched, unless the
@@ -310,6 +319,23 @@ theorem C08_single_fault_leaves_no_other_table (sh : Shape) (w : World) (prev : 
 
 example : failures (writeFits ⟨1, false, 0, false⟩ exampleWorld.env).trace = 1 := by decide
 
+/-- The hypothesis "one failing call" cannot be dropped (a limit of the code, not of the proof): with *two* faults — a
+    write that fails while later writes of the same flush succeed, and a `remove` that fails afterwards — `write_fits`
+    reports the failure but a file with a hole stays behind, which is not a prefix of the complete file (here
+    `1,2,3,0,0,6` instead of `1,2,3,4,5,6`); when the hole lies in the coefficient data, such a file loads as a
+    different table (the zeroed-block files of the check: `coverage.hole_states`).  Outside the property's quantifier
+    (a single failing operation). -/
+theorem C08_two_faults_limit :
+    ∃ w : World, failures (writeFits ⟨1, false, 0, false⟩ w.env).trace = 2 ∧
+      (writeFits ⟨1, false, 0, false⟩ w.env).outcome = .failure ∧
+      diskAfter (coreSteps ⟨1, false, 0, false⟩) w none = some [1, 2, 3, 0, 0, 6] ∧
+      diskAfter (coreSteps ⟨1, false, 0, false⟩) ⟨fun _ => true, fun j => (w.io j).map fun o => { o with ok := true }, false, false⟩ none
+        = some [1, 2, 3, 4, 5, 6] :=
+  ⟨⟨fun i => i != 8 && i != 9,
+    fun j => if j = 8 then [⟨.pwrite 0 [1, 2, 3], true, 0⟩, ⟨.pwrite 3 [4, 5], false, 0⟩, ⟨.pwrite 5 [6], true, 0⟩, ⟨.close, true, 0⟩]
+             else [],
+    false, false⟩, by decide, by decide, by decide, by decide⟩
+
 /-- C08 (success): under the contract `Surfaces` a reported success means that no write and no close failed in any
     call, and the file consists of everything the calls wrote; if that is the encoding of a well-formed table (tied
     byte for byte on every run), the file reads back equal to the table. -/
@@ -335,7 +361,7 @@ theorem C08_success_file_complete (sh : Shape) (w : World) (prev : Option Bytes)
     rw [hfile]
     exact C08_write_reads_back t ht
 
-example : Surfaces ⟨fun _ => true, fun _ => [], false⟩ (writeFits ⟨1, false, 0, false⟩ (fun _ => true)).trace ∧
+example : Surfaces ⟨fun _ => true, fun _ => [], false, false⟩ (writeFits ⟨1, false, 0, false⟩ (fun _ => true)).trace ∧
     (writeFits ⟨1, false, 0, false⟩ (fun _ => true)).outcome = .success :=
   ⟨fun j _ ⟨o, ho, _⟩ => absurd ho (by simp), by decide⟩
 
